@@ -47,7 +47,7 @@ ServerShape = Obj(Server, dict(
 QUEUES_RESET = {'self.sent_message_queues': Dict({p: QueueReset for p in Player}),
                 'self.received_message_queues': Dict({p: QueueReset for p in Player})}
 
-P = ['C08', 'C10', 'C13']
+P = ['C08', 'C10', 'C13']       # (Server.run also carries the accept-loop clause of C20)
 
 
 @klass('bridge_env.network_bridge.server.Server', props=P)
@@ -245,6 +245,15 @@ def _accept_inv():
     return True
 
 
+def _one_admission_at_a_time(team_names, event_thread, event_sync, thread):
+    """C20: each accepted connection gets its own seat thread working on the SHARED seat table and
+    barrier; the main thread then waits for that thread's verdict before it accepts the next
+    connection, and re-arms the verdict flag -- so at most one admission decides at any time."""
+    return conj(thread.team_names is team_names, thread.event_thread is event_thread,
+                thread.event_sync is event_sync, thread.ghost_started,
+                event_thread.ops == ['wait', 'clear'])
+
+
 def _boards_inv(game_log_writer, fw, idx, ns_team_name, ew_team_name):
     return conj(game_log_writer._open, iff(game_log_writer._first_line, idx == 0),
                 game_log_writer._writer is fw, ns_team_name is not None, ew_team_name is not None)
@@ -292,7 +301,7 @@ def _log_complete(w):
     return (not w._open) and len(o) >= 1 and (o[-1] == J.FOOTER or o[-1] == J.FOOTER_EMPTY)
 
 
-@contract('bridge_env.network_bridge.server.Server.run', props=P)
+@contract('bridge_env.network_bridge.server.Server.run', props=P + ['C20'])
 class _run:
     params = dict(self=RunServerShape)
     raises = {BaseException: 'onlyif'}
@@ -300,7 +309,9 @@ class _run:
     modifies = ['self']
     loops = {
         0: LoopContract(invariant=_accept_inv,
-                        havoc_heap=dict(team_names=TeamNames, threads=TraceReset())),
+                        havoc_heap=dict(team_names=TeamNames, threads=TraceReset(),
+                                        event_thread=Ext('event', dict(ops=TraceReset()))),
+                        body_ensures=dict(one_admission_at_a_time=_one_admission_at_a_time)),
         1: LoopContract(invariant=_boards_inv,
                         havoc=dict(play_history=Opt(PHShape), taken_trick_num=Opt(Int(0)),
                                    score=Int()),
